@@ -9,7 +9,8 @@ CONSTANTS
   RNow = 2
   MaxLen = 2
   MaxNum = 4
+  FullKeys = {1}
   Dup = TRUE
   TCmds <- CmdsZ
-INVARIANTS TypeOK ErrorChangesNothing ReadsChangeNothing KeysIndependent CountsAgree ExpiredIsDead OverwriteClearsExpiry ModifyKeepsExpiry NewGenerationIsEmpty TTLIsRemaining LocalDeletion
+INVARIANTS TypeOK ReadsChangeNothing CountsAgree ExpiredIsDead OverwriteClearsExpiry ModifyKeepsExpiry NewGenerationIsEmpty TTLIsRemaining LocalDeletion
 CHECK_DEADLOCK FALSE
